@@ -104,7 +104,7 @@ pub struct Cfg {
     pub vault_a: u8,
     pub take: u8,    // 0 inactive(50%), 1 active 0, 2 1e-18, 3 1%, 4 50%, 5 1-1e-18
     pub routes: u8,  // 0 both, 1 none, 2 only A, 3 only B
-    pub fault: u8,   // 0 none, 1 pair A swaps disabled, 2 A hop exceeds max spread
+    pub fault: u8,   // 0 none, 1 pair A swaps disabled, 2 A hop exceeds max spread, 3 B hop exceeds max spread (asset only the pools' aggregation step handles)
 }
 
 pub fn all_cfgs() -> Vec<Cfg> {
@@ -115,7 +115,7 @@ pub fn all_cfgs() -> Vec<Cfg> {
                 for vault_a in 0..3 {
                     for take in 0..6 {
                         for routes in 0..4 {
-                            for fault in 0..3 {
+                            for fault in 0..4 {
                                 v.push(Cfg { pair_a, pair_b, vault_w, vault_a, take, routes, fault });
                             }
                         }
@@ -246,6 +246,10 @@ pub fn run_cfg(w: &mut World, bs: &Base, c: &Cfg, cx: &mut Cx) {
             // a USDC balance in the collector larger than the pool can absorb within 50% spread
             w.exec_cosmos(MALLORY, BankMsg::Send { to_address: hub.collector.clone(), amount: vec![coin(5_000_000_000, USDC)] }.into()).unwrap();
         }
+        3 => {
+            // the same for the cw20 asset, which no vault holds: its swap belongs to the pools' aggregation step
+            w.exec(MALLORY, &bs.tok_b, &cw20::Cw20ExecuteMsg::Transfer { recipient: hub.collector.clone(), amount: Uint128::new(5_000_000_000) }, &[]).unwrap();
+        }
         _ => {}
     }
     // only the distributor may trigger forwarding
@@ -264,7 +268,8 @@ pub fn run_cfg(w: &mut World, bs: &Base, c: &Cfg, cx: &mut Cx) {
     let a_balance_after_collection = pre.coll[1] + if pre.pair_pending[0][0] > 1000 { pre.pair_pending[0][0] } else { 0 } + pre.vault_pending[1];
     // (a disabled pair does not make the router's simulation fail, so like an excessive spread it makes the
     // executed hop fail after a successful simulation)
-    let must_revert = (c.fault == 2 || c.fault == 1) && has_route_a && a_balance_after_collection > 1000;
+    let b_balance_after_collection = pre.coll[2] + if pre.pair_pending[1][0] > 1000 { pre.pair_pending[1][0] } else { 0 };
+    let must_revert = ((c.fault == 2 || c.fault == 1) && has_route_a && a_balance_after_collection > 1000) || (c.fault == 3 && has_route_b && b_balance_after_collection > 1000);
     match &r {
         Err(e) => {
             cx.count("newepoch:reverted");
@@ -356,7 +361,7 @@ pub fn run(tier: &str, seed: u64) -> i32 {
     let n = cfgs.len();
     ev.add_grid_result(
         "pipeline-configurations",
-        "full product: pair A/B fee state {0,<1000,>1000}^2 x vault W/A fee state {0,500,5000}^2 x take rate {inactive,0,1e-18,1%,50%,1-1e-18} x routes {both,none,A,B} x fault {none, pair A swaps disabled, A hop exceeds max spread}",
+        "full product: pair A/B fee state {0,<1000,>1000}^2 x vault W/A fee state {0,500,5000}^2 x take rate {inactive,0,1e-18,1%,50%,1-1e-18} x routes {both,none,A,B} x fault {none, pair A swaps disabled, A hop exceeds max spread, B hop exceeds max spread}",
         res,
         &|i| cfg_json(&cfgs[i]),
         &[0, n / 3, n / 2, n - 1],
